@@ -13,9 +13,12 @@ def main():
     prop, var = sys.argv[1], sys.argv[2]
     checks = [prop]
     full_suite = "--no-suite" not in sys.argv
+    feat = ""
     for a in sys.argv[3:]:
         if a.startswith("--checks="):
             checks = a.split("=")[1].split(",")
+        if a.startswith("--features="):
+            feat = " --features " + a.split("=")[1]
     wt = "/tmp/mut/%s" % prop
     out = "/tmp/mut/out_%s/%s" % (prop, var)
     dest = "/verif/seeded/%s%s" % (prop, var)
@@ -28,10 +31,10 @@ def main():
     sh("git checkout -- . && git clean -fdq tests", cwd=wt)
     tname = "demo_%s_%s" % (prop.lower(), var)
     shutil.copy(demo, os.path.join(wt, "tests", tname + ".rs"))
-    rc0, o0 = sh("cargo test --offline --test %s 2>&1 | tail -15" % tname, cwd=wt)
+    rc0, o0 = sh("cargo test --offline%s --test %s 2>&1 | tail -15" % (feat, tname), cwd=wt)
     ok_without = "test result: ok" in o0 and "FAILED" not in o0
     rca, oa = sh("git apply %s" % patch, cwd=wt)
-    rc1, o1 = sh("cargo test --offline --test %s 2>&1 | tail -25" % tname, cwd=wt)
+    rc1, o1 = sh("cargo test --offline%s --test %s 2>&1 | tail -25" % (feat, tname), cwd=wt)
     fails_with = ("FAILED" in o1 or "panicked" in o1 or "error: test failed" in o1) and rca == 0
     suite_ok = None
     if full_suite:
